@@ -1109,7 +1109,7 @@ fn main() {
     }
 
     // plan
-    let target_random: u64 = a.u64("random-ops", if thorough { 99_000_000 } else { 2_050_000 });
+    let target_random: u64 = a.u64("random-ops", if thorough { 107_000_000 } else { 2_050_000 });
     let per_chunk = ROUNDS_PER_CHUNK * OPS_PER_ROUND;
     let chunks_per_modulus = (target_random + per_chunk * large.len() as u64 - 1) / (per_chunk * large.len() as u64);
     let mut tasks: Vec<Task> = Vec::new();
